@@ -1,7 +1,7 @@
 (* C04 — refinement: the world of Parameter objects, locations and caches (M_Params.v) behaves, under
    every operation, exactly like the value-level specification interpreter of S_Params.v. *)
 From Coq Require Import ZArith List Bool Lia Permutation.
-From Sky Require Import Result PyList G_params M_Params S_Params P_Params P_ParamsWorld.
+From Sky Require Import Result PyList G_params M_Params S_Params P_Params P_ParamsWorld P_ParamsArgs.
 Import ListNotations.
 Open Scope Z_scope.
 
@@ -182,13 +182,13 @@ Proof.
   destruct (make_params_fixed (w_store w) s req) as [[st' s'] [e|]]; cbn [fst snd].
   - destruct H as (-> & -> & -> & (p & Hp & Hr & Hf)).
     assert (E : s_fix ps req = Err ValueError).
-    { unfold s_fix. replace (existsb _ ps) with true; [reflexivity|]. symmetry. apply existsb_exists.
+    { rewrite s_fix_old. replace (existsb _ ps) with true; [reflexivity|]. symmetry. apply existsb_exists.
       exists p. split; [assumption|]. rewrite Hf. destruct (assoc req (p_name p)); [reflexivity | congruence]. }
     rewrite E. cbn [fst snd]. split; [|reflexivity].
     rewrite (abs_update w r s (w_store w) s ps HW Hg) by auto. apply a_put_same. rewrite get_set_abs, Hg. reflexivity.
   - destruct H as (HC' & Hreq & Hp & Hag & Hlen).
     assert (E : s_fix ps req = Ok (map (fix_one req) ps)).
-    { unfold s_fix. destruct (existsb _ ps) eqn:Ex; [|reflexivity]. exfalso.
+    { rewrite s_fix_old. destruct (existsb _ ps) eqn:Ex; [|reflexivity]. exfalso.
       apply existsb_exists in Ex. destruct Ex as (p & Hpin & Hb). apply andb_true_iff in Hb. destruct Hb as (Hb1 & Hb2).
       assert (p_isfixed p = false) by (apply Hreq; [assumption | destruct (assoc req (p_name p)); [discriminate | discriminate]]).
       congruence. }
@@ -216,13 +216,13 @@ Proof.
   destruct (make_params_floating (w_store w) s req) as [[st' s'] [e|]]; cbn [fst snd].
   - destruct H as (-> & -> & -> & (p & Hp & Hr)).
     assert (E : s_float ps req = Err ValueError).
-    { unfold s_float. destruct (forallb (float_row_ok req) ps) eqn:Ex; [|reflexivity]. exfalso.
+    { rewrite s_float_old. destruct (forallb (float_row_ok req) ps) eqn:Ex; [|reflexivity]. exfalso.
       rewrite forallb_forall in Ex. apply Hr. apply float_row_ok_iff. auto. }
     rewrite E. cbn [fst snd]. split; [|reflexivity].
     rewrite (abs_update w r s (w_store w) s ps HW Hg) by auto. apply a_put_same. rewrite get_set_abs, Hg. reflexivity.
   - destruct H as (HC' & Hreq & Hp & Hag & Hlen).
     assert (E : s_float ps req = Ok (map (float_one req) ps)).
-    { unfold s_float. replace (forallb (float_row_ok req) ps) with true; [reflexivity|]. symmetry.
+    { rewrite s_float_old. replace (forallb (float_row_ok req) ps) with true; [reflexivity|]. symmetry.
       apply forallb_forall. intros p Hpin. apply float_row_ok_iff. auto. }
     rewrite E. cbn [fst snd]. split; [|reflexivity].
     apply (abs_update w r s st' s' _ HW Hg); [intros l _ Hl; apply Hag; assumption | apply abs_set_Consistent; assumption].
@@ -288,7 +288,7 @@ Proof.
   intros HW. unfold refines. cbn [step s_step].
   assert (En : nth_error (a_sets (abs w)) n = option_map (abs_set (w_store w)) (nth_error (w_sets w) n))
     by (unfold abs; cbn [a_sets]; apply nth_error_map).
-  rewrite En.
+  rewrite En. rewrite s_param_new_eq.
   destruct (nth_error (w_sets w) n) as [s|] eqn:Hn; cbn [option_map]; [|split; reflexivity].
   destruct (param_new d) as [p|e] eqn:Hd; [|split; reflexivity].
   assert (Hg : get_set w (St n) = Ok s) by (cbn; rewrite Hn; reflexivity).
@@ -321,7 +321,7 @@ Qed.
 
 Lemma refine_map w d models al : WorldOk w -> refines w (OMap d models al).
 Proof.
-  intros HW. unfold refines. cbn [step s_step].
+  intros HW. unfold refines. cbn [step s_step]. rewrite s_param_new_eq.
   destruct (param_new d) as [p|e] eqn:Hd; [|split; reflexivity].
   rewrite map_param_factor.
   change (a_src (abs w)) with (mp_src (w_map w)). change (a_names (abs w)) with (mp_names (w_map w)).
@@ -397,7 +397,7 @@ Proof.
   set (ps := abs_set (w_store w) s) in *.
   pose proof (Consistent_elim _ _ _ HC) as (HM & HNn & HF & HK & HCa).
   assert (Hlen : length ps = length (ps_params s)) by (eapply mapM_Ok_length; eauto).
-  unfold s_setv.
+  rewrite s_setv_old.
   destruct (py_get (ps_params s) k) as [l|e] eqn:Hk.
   - destruct (py_index _ _ _ Hk) as (j & Hj & Hpar). destruct (Hpar _ ps Hlen) as (Hget & Hset).
     destruct (mapM_nth _ _ _ _ _ HM Hj) as (p & Hpj & Hrd). rewrite Hget, Hpj, Hrd. cbn [bind].
